@@ -201,6 +201,9 @@ func (c *Ctx) defaultIsError(f *ssa.Function) bool {
 }
 
 func runC04(c *Ctx) {
+	// the chain clause speaks of the reveal value "the parser reports": it is the hash of the signing key because the
+	// parser refuses any other, in both batch modes (the rule of C02.G3)
+	c.revealValueRules()
 	getC := c.Fn("commitment", "GetCommitment")
 	getR := c.Fn("commitment", "GetRevealValue")
 	fromR := c.Fn("commitment", "GetCommitmentFromRevealValue")
@@ -273,6 +276,9 @@ func runC04(c *Ctx) {
 		}
 		a := declArgs(pcs[0])
 		c.Check("C04.T2", f.Name()+":parses-its-argument", c.Path(a[1], nil) == "$1", pcs[0].Pos(), "ParseOperation is applied to the operation bytes parameter ("+c.Path(a[1], nil)+")")
+		// both accessors read anchored operations: batch mode (request-time validators — anchoring window against the
+		// clock, anchor origin, delta validation — would make the reported values depend on when and where they are read)
+		c.Check("C04.T2", f.Name()+":parses-in-batch-mode", len(a) == 3 && c.Path(a[2], nil) == "true", pcs[0].Pos(), "ParseOperation is called in batch mode ("+c.Path(a[len(a)-1], nil)+")")
 		X := c.Path(pcs[0], nil) + "#0"
 		chkParse := &GCheck{Name: "ParseOperation succeeded", MatchCall: func(c *Ctx, call *ssa.Call, env Env) bool { return call == pcs[0] }}
 		c.CheckGuard("C04.T2", f.Name()+":requires-parse", f, nil, chkParse)
